@@ -5,6 +5,7 @@
 //! `<out>/spec_violations.jsonl`.
 #![allow(dead_code)]
 mod util;
+mod c17_json;
 mod c20_cache;
 mod c15_bbox;
 mod c04_recompress;
@@ -49,6 +50,7 @@ fn main() {
 		"c20" => c20_cache::run(&ctx),
 		"c15" => c15_bbox::run(&ctx),
 		"c14" => c14_stream::run(&ctx),
+		"c17" => c17_json::run(&ctx),
 		"c04" => c04_recompress::run(&ctx),
 		"c05" => http::run_c05(&ctx),
 		"c07" => http::run_c07(&ctx),
